@@ -832,4 +832,196 @@ theorem visitSources_ck {st : CState} {Γ : TEnv} (hinv : Inv st Γ) (pa : Code)
               · simp only [checkSources, hck, hB', Bool.false_eq_true, if_false]; simpa [checkSources] using hck2
 end
 
+/-! ### allotments -/
+
+def isVarP : PortionSpec → Bool | .var _ => true | _ => false
+def isRemP : PortionSpec → Bool | .remaining => true | _ => false
+def isBadP : PortionSpec → Bool | .badConst => true | _ => false
+def varOkP (Γ : TEnv) : PortionSpec → Bool
+  | .var n => decide (tyOf Γ (.var n) = some .portion)
+  | _ => true
+def nRem (l : List PortionSpec) : Nat := (l.filter isRemP).length
+
+/-- the verdict of the loop of `VisitAllotment` over `l`, entered with `hasRemaining = hr` -/
+def portionsCk (Γ : TEnv) (l : List PortionSpec) (hr : Bool) : Bool :=
+  !l.any isBadP && l.all (varOkP Γ) && decide (nRem l + (if hr then 1 else 0) ≤ 1)
+
+theorem nRem_cons (p : PortionSpec) (l : List PortionSpec) : nRem (p :: l) = nRem l + (if isRemP p then 1 else 0) := by
+  unfold nRem
+  rw [List.filter_cons]
+  cases isRemP p <;> simp
+
+theorem portionsCk_cons (Γ : TEnv) (p : PortionSpec) (l : List PortionSpec) (hr : Bool) :
+    portionsCk Γ (p :: l) hr = (!isBadP p && varOkP Γ p && !(isRemP p && hr) && portionsCk Γ l (hr || isRemP p)) := by
+  unfold portionsCk
+  rw [nRem_cons, List.any_cons, List.all_cons]
+  cases isBadP p <;> cases varOkP Γ p <;> cases isRemP p <;> cases hr <;> cases l.any isBadP <;> cases l.all (varOkP Γ) <;> simp <;> omega
+
+theorem ck_const (Γ : TEnv) (r : Rat') (l : List PortionSpec) (hr : Bool) : portionsCk Γ (.const r :: l) hr = portionsCk Γ l hr := by
+  rw [portionsCk_cons]; simp [isBadP, varOkP, isRemP]
+theorem ck_bad (Γ : TEnv) (l : List PortionSpec) (hr : Bool) : portionsCk Γ (.badConst :: l) hr = false := by
+  rw [portionsCk_cons]; simp [isBadP]
+theorem ck_var (Γ : TEnv) (n : String) (l : List PortionSpec) (hr : Bool) :
+    portionsCk Γ (.var n :: l) hr = (decide (tyOf Γ (.var n) = some .portion) && portionsCk Γ l hr) := by
+  rw [portionsCk_cons]; simp [isBadP, varOkP, isRemP]
+theorem ck_rem_t (Γ : TEnv) (l : List PortionSpec) : portionsCk Γ (.remaining :: l) true = false := by
+  rw [portionsCk_cons]; simp [isBadP, varOkP, isRemP]
+theorem ck_rem_f (Γ : TEnv) (l : List PortionSpec) : portionsCk Γ (.remaining :: l) false = portionsCk Γ l true := by
+  rw [portionsCk_cons]; simp [isBadP, varOkP, isRemP]
+
+/-- what the loop of `VisitAllotment` returns: the two flags, and a state that only grew -/
+def PortPost (st : CState) (l : List PortionSpec) (hv hr : Bool) (r : Code × CState × Bool × Bool) : Prop :=
+  r.2.2.1 = (hv || l.any isVarP) ∧ r.2.2.2 = (hr || l.any isRemP) ∧ Ext st r.2.1
+
+theorem visitPortions_ck {st : CState} {Γ : TEnv} (hinv : Inv st Γ) (l : List PortionSpec) (hv hr : Bool) :
+    CkSpec (visitPortions st l hv hr) (portionsCk Γ l hr) (PortPost st l hv hr) := by
+  induction l generalizing st hv hr with
+  | nil =>
+    simp only [visitPortions]
+    refine ⟨?_, by simp, by simp, Ext.refl _⟩
+    cases hr <;> simp [portionsCk, nRem]
+  | cons p rest ih =>
+    simp only [visitPortions]
+    cases p with
+    | const r =>
+      simp only
+      rw [ck_const]
+      cases hal : allocRes st (.const (.portion r)) with
+      | error e => cases allocRes_err hal; trivial
+      | ok x =>
+        obtain ⟨a, st1⟩ := x
+        simp only
+        have hext := (allocConst_ok hal).1
+        have := ih (hinv.ext hext) hv hr
+        cases hrec : visitPortions st1 rest hv hr with
+        | error e => rw [hrec] at this; exact this.err id
+        | ok y =>
+          obtain ⟨c2, st2, hv2, hr2⟩ := y
+          rw [hrec] at this
+          obtain ⟨h1, h2, h3, h4⟩ := this
+          exact ⟨h1, by simpa [isVarP] using h2, by simpa [isRemP] using h3, hext.trans h4⟩
+    | badConst => simp only; rw [ck_bad]; rfl
+    | var n =>
+      simp only
+      rw [ck_var]
+      have he := visitExpr_ck hinv (.var n)
+      cases hvx : visitExpr st (.var n) with
+      | error e =>
+        rw [hvx] at he
+        exact he.err (by intro hf; simp [isSome_false hf])
+      | ok o =>
+        rw [hvx] at he
+        obtain ⟨_, t, ht1, ht2⟩ := he
+        simp only
+        by_cases hty : o.ty = .portion
+        · have : t = .portion := Ty.toB_inj (by rw [← ht2, hty]; rfl)
+          subst this
+          simp only [hty, ne_eq, not_true_eq_false, if_false, ht1, decide_true, Bool.true_and]
+          have hext := visitExpr_ext hvx
+          have := ih (hinv.ext hext) true hr
+          cases hrec : visitPortions o.st rest true hr with
+          | error e => rw [hrec] at this; exact this.err id
+          | ok y =>
+            obtain ⟨c2, st2, hv2, hr2⟩ := y
+            rw [hrec] at this
+            obtain ⟨h1, h2, h3, h4⟩ := this
+            exact ⟨h1, by simpa [isVarP] using h2, by simpa [isRemP] using h3, hext.trans h4⟩
+        · simp only [hty, ne_eq, not_false_eq_true, if_true]
+          have : t ≠ .portion := by intro e'; subst e'; exact hty ht2
+          show (decide (tyOf Γ (.var n) = some .portion) && portionsCk Γ rest hr) = false
+          simp [ht1, this]
+    | remaining =>
+      simp only
+      cases hr with
+      | true => simp only [if_true]; rw [ck_rem_t]; rfl
+      | false =>
+        simp only [Bool.false_eq_true, if_false]
+        rw [ck_rem_f]
+        cases hal : allocRes st (.const .remaining) with
+        | error e => cases allocRes_err hal; trivial
+        | ok x =>
+          obtain ⟨a, st1⟩ := x
+          simp only
+          have hext := (allocConst_ok hal).1
+          have := ih (hinv.ext hext) hv true
+          cases hrec : visitPortions st1 rest hv true with
+          | error e => rw [hrec] at this; exact this.err id
+          | ok y =>
+            obtain ⟨c2, st2, hv2, hr2⟩ := y
+            rw [hrec] at this
+            obtain ⟨h1, h2, h3, h4⟩ := this
+            exact ⟨h1, by simpa [isVarP] using h2, by simpa [isRemP] using h3, hext.trans h4⟩
+
+theorem nRem_reverse (l : List PortionSpec) : nRem l.reverse = nRem l := by
+  simp [nRem, List.filter_reverse]
+
+theorem any_isRem_iff (l : List PortionSpec) : l.any isRemP = decide (1 ≤ nRem l) := by
+  induction l with
+  | nil => rfl
+  | cons p rest ih =>
+    rw [List.any_cons, nRem_cons, ih]
+    cases isRemP p <;> simp
+
+theorem checkPortions_eq (Γ : TEnv) (ps : List PortionSpec) :
+    checkPortions Γ ps =
+      (!ps.any isBadP && ps.all (varOkP Γ) && decide (nRem ps ≤ 1) && decide ((ratSum (constPortions ps)).1 ≤ (ratSum (constPortions ps)).2) &&
+        (if (ratSum (constPortions ps)).1 < (ratSum (constPortions ps)).2 then decide (nRem ps = 1) else !ps.any isVarP && decide (nRem ps = 0))) := by
+  rfl
+
+theorem chain_eq {α : Type} (a b k : Nat) (hv : Bool) (hk : k ≤ 1) (X : Except CompileErr α) :
+    (if a > b then (.error .static : Except CompileErr α)
+     else if (decide (a < b) && !decide (1 ≤ k)) = true then .error .static
+     else if (decide (a = b) && hv) = true then .error .static
+     else if (decide (a = b) && decide (1 ≤ k)) = true then .error .static
+     else X)
+    = if (decide (a ≤ b) && (if a < b then decide (k = 1) else !hv && decide (k = 0))) = true then X else .error .static := by
+  have hk' : k = 0 ∨ k = 1 := by omega
+  rcases Nat.lt_trichotomy a b with h | h | h
+  · have h1 : ¬ a > b := by omega
+    have h2 : ¬ a = b := by omega
+    have h3 : a ≤ b := by omega
+    rcases hk' with rfl | rfl <;> cases hv <;> simp [h, h1, h2, h3]
+  · subst h
+    rcases hk' with rfl | rfl <;> cases hv <;> simp
+  · have h1 : ¬ a < b := by omega
+    have h2 : ¬ a = b := by omega
+    have h3 : ¬ a ≤ b := by omega
+    rcases hk' with rfl | rfl <;> cases hv <;> simp [h, h1, h3]
+
+/-- `VisitAllotment` accepts exactly the portion lists `checkPortions` accepts -/
+theorem visitAllotment_ck {st : CState} {Γ : TEnv} (hinv : Inv st Γ) (ps : List PortionSpec) :
+    CkSpec (visitAllotment st ps) (checkPortions Γ ps) (fun r => Ext st r.2) := by
+  unfold visitAllotment
+  have hp := visitPortions_ck hinv ps.reverse false false
+  have hck : portionsCk Γ ps.reverse false = (!ps.any isBadP && ps.all (varOkP Γ) && decide (nRem ps ≤ 1)) := by
+    simp [portionsCk, nRem_reverse]
+  rw [checkPortions_eq]
+  rw [hck] at hp
+  cases hv : visitPortions st ps.reverse false false with
+  | error e =>
+    rw [hv] at hp
+    refine hp.err ?_
+    intro hf
+    rw [hf]; rfl
+  | ok r =>
+    obtain ⟨c, st1, hasVar, hasRem⟩ := r
+    rw [hv] at hp
+    obtain ⟨h1, h2, h3, h4⟩ := hp
+    simp only [Bool.false_or, List.any_reverse] at h2 h3
+    simp only at h4
+    rw [any_isRem_iff] at h3
+    subst h2 h3
+    have hle : nRem ps ≤ 1 := by
+      simp only [Bool.and_eq_true, decide_eq_true_eq] at h1; exact h1.2
+    dsimp only
+    rw [h1, Bool.true_and]
+    rw [chain_eq _ _ _ _ hle]
+    cases hacc : (decide ((ratSum (constPortions ps)).1 ≤ (ratSum (constPortions ps)).2) &&
+        (if (ratSum (constPortions ps)).1 < (ratSum (constPortions ps)).2 then decide (nRem ps = 1) else !ps.any isVarP && decide (nRem ps = 0)))
+    · simp only [Bool.false_eq_true, if_false]; rfl
+    · simp only [if_true]
+      cases hs : emitSeq st1 [.pushInt ps.length, .op .makeAllotment] with
+      | error e => cases emitSeq_err hs; trivial
+      | ok r => exact ⟨rfl, h4.trans (emitSeq_ext hs)⟩
+
 end Num
